@@ -82,7 +82,9 @@ func (r *binaryReader) next() (bool, error) {
 
 	case bitcodeNull:
 		if !r.bits.IsNull() {
-			// NOP padding; skip it and keep going.
+			// NOP padding; skip it and keep going. Inside a struct the pad came with a
+			// field name, which belongs to no value.
+			r.fieldName = nil
 			err := r.bits.SkipValue()
 			return false, err
 		}
